@@ -28,7 +28,11 @@ GAP_MAX_RATIO = 0.7  # general-position guard: lambda[i+1] / lambda[i] <= this
 FLOOR_MIN_RATIO = 1e-5  # ... and lambda[last] / lambda[0] >= this (menpo's floor is 1e-10)
 F_TIE_MARGIN = 1e-6  # variance-fraction letters keep this distance to every cumulative ratio
 
-# tolerances (sized on the unchanged tree over seeds 0..9: see TOL_NOTES at the end of the file)
+# tolerances, sized on the unchanged tree over seeds 0..9, every data letter of the thorough tier, every
+# (kept, active) pair.  Worst errors observed: orthonormality 5.6e-13, eigenvalue vs variance along the
+# component 2.0e-12 (relative), eigenvalue vs SVD spectrum 2.0e-12, principal axes 2.8e-13, weights round
+# trip 5.6e-13, reconstruction / residual identities 6.5e-13, training samples 1.7e-14, original variance
+# 1.8e-15, mean 0.  Every tolerance keeps a margin >= 100x; the smallest mutant effect is ~1e-4.
 TOL_ORTH = 1e-10
 TOL_EIG_REL = 1e-9
 TOL_VEC = 1e-9  # vectors reconstructed / projected, relative to the data scale
@@ -178,7 +182,10 @@ class C10(Check):
     title = "PCA models satisfy the defining identities, also after trimming"
 
     def depth(self):
-        return 2 if self.tier == "quick" else 4
+        # every (kept, active) pair is reached after two letters (trim, then active); depth 3 therefore
+        # verifies every outgoing transition of every canonical state, depth 4 adds histories behind them
+        # (and the confluence re-expansion of merged states in the thorough tier)
+        return 3 if self.tier == "quick" else 4
 
     # ------------------------------------------------------------------ roots
     def roots(self):
@@ -251,7 +258,12 @@ class C10(Check):
         }
 
     def canon(self, st):
-        return (st["kept"], st["active"], obs_key(observe(st["m"])))
+        o = observe(st["m"])
+        # sums over the discarded eigenvalues depend on the order in which they were trimmed (last bits):
+        # they are compared with the model by the step oracle and kept out of the key
+        for name in ("original_variance", "noise_variance"):
+            o.pop(name, None)
+        return (st["kept"], st["active"], obs_key(o))
 
     # ------------------------------------------------------------------ alphabet
     def ops(self, st, level):
